@@ -78,4 +78,6 @@ cf8d1d2 C01
 0a9359e C04
 b62f1cf C02
 b91dce8 C04
+cc1e1eb C14
+17c395c C14
 LIST
